@@ -17,7 +17,7 @@ def run(tier, seed):
     ck.proof = lib.proof_step('props/C03.v', matchcheck.MATCH_CONE + ['ApiFacts.v', 'gen/ApiGen.v'])
     ck.broken += ck.proof['broken']
     if not ck.proof['driver_ok']:
-        return ck.finish(rule='driver unavailable')
+        ck.notes['driver'] = 'unavailable: model-side runs skipped, searching with the implementation-side oracles only'
     import soupsieve as sv
     n = 80 if tier == 'quick' else 2000
     custom = {':--cust': 'p, div > span', ':--h': 'li, b'}
@@ -34,6 +34,9 @@ def run(tier, seed):
             targets = [top] + rnd.sample(elements, min(4, len(elements)))
             for _ in range(5):
                 s = sg.selector(1)
+                if rnd.random() < 0.2:
+                    s = rnd.choice([':scope', ':not(:scope)', ':is(:scope, p)', '&', ':scope > *', '* > :scope', ':not(&)', 'div:scope, p',
+                                    ':scope:not(.x)', ':where(:scope) ~ *'])
                 use_custom = ':--' in s or rnd.random() < 0.3
                 flags = rnd.choice([0, 0, sv.DEBUG]) if False else 0
                 kw = {}
@@ -100,12 +103,15 @@ def run(tier, seed):
                                 if root is not None:
                                     facts.append((':scope is the root element when called on the document',
                                                   ids(sv.select(':scope', tgt)) == [id(root)]))
+                            ch0 = [k_ for k_ in tgt.contents if isinstance(k_, bs4.Tag)]
+                            mixed = ch0[:4] + [bs4.element.NavigableString('nav'), bs4.element.Comment('c')] + elements[:3] + ch0[:2][::-1]
+                            # each item of an iterable is matched on its own (it is its own :scope)
+                            facts.append(('filter(iterable) = matching Tag items in order, each matched on its own',
+                                          ids(c.filter(mixed)) == ids([x for x in mixed if isinstance(x, bs4.Tag) and c.match(x)])))
+                            facts.append(('filter(generator) = filter(list)', ids(c.filter(x for x in mixed)) == ids(c.filter(mixed))))
                             if not has_scope:
                                 ch = [k_ for k_ in tgt.contents if isinstance(k_, bs4.Tag)]
                                 facts.append(('filter(tag) = matching element children', ids(c.filter(tgt)) == ids([k_ for k_ in ch if c.match(k_)])))
-                                mixed = ch[:3] + ['text', bs4.element.NavigableString('nav')] + elements[:2]
-                                facts.append(('filter(iterable) = matching Tag items in order',
-                                              ids(c.filter(mixed)) == ids([x for x in mixed if isinstance(x, bs4.Tag) and c.match(x)])))
                                 facts.append(('select = filter of descendants by match', ids(full) == ids([d for d in desc if c.match(d)])))
                         except Exception as ex:
                             ck.notes['skipped_' + type(ex).__name__] = ck.notes.get('skipped_' + type(ex).__name__, 0) + 1
